@@ -53,7 +53,8 @@ Record st := mkSt {
   s_bc : list bcast;                   (* prepared broadcasts in flight *)
   s_conn : key -> option kstate;       (* the connection's tracked keys *)
   s_sub : bool;                        (* the connection is subscribed to the channel *)
-  s_held : key -> option ver           (* reference client: version whose payload it holds *)
+  s_held : key -> option ver;          (* reference client: version whose payload it holds *)
+  s_keys : list key                    (* keys the connection tracks (its membership in the keyed hub) *)
 }.
 
 Definition upd {A : Type} (f : key -> option A) (k : key) (v : option A) : key -> option A :=
@@ -78,6 +79,9 @@ Fixpoint remove_nth {A : Type} (i : nat) (l : list A) : list A :=
   | 0, _ :: t => t
   | S j, x :: t => x :: remove_nth j t
   end.
+
+Definition add_tkey (k : key) (l : list key) : list key := if existsb (Nat.eqb k) l then l else k :: l.
+Definition del_tkey (k : key) (l : list key) : list key := filter (fun x => negb (Nat.eqb x k)) l.
 
 Fixpoint remove_poll (k : key) (l : list (key * ver)) : list (key * ver) :=
   match l with
@@ -115,7 +119,7 @@ Section Step.
                        end in
           (mkSt (s_ent s) (s_polls s) (s_bc s)
                 (upd (s_conn s) (bc_key b) (Some (mkKs (bc_ver b) true)))
-                (s_sub s) (upd (s_held s) (bc_key b) held'),
+                (s_sub s) (upd (s_held s) (bc_key b) held') (s_keys s),
            [p])
     end.
 
@@ -123,7 +127,7 @@ Section Step.
     match a with
     | ASubscribe =>
         if s_sub s then (s, [])
-        else (mkSt (s_ent s) (s_polls s) (s_bc s) (fun _ => None) true (fun _ => None), [])
+        else (mkSt (s_ent s) (s_polls s) (s_bc s) (fun _ => None) true (fun _ => None) [], [])
     | ATrack k fresh =>
         if negb (s_sub s) then (s, [])
         else
@@ -135,28 +139,28 @@ Section Step.
           if keep && e_data ent && Nat.ltb cv (e_ver ent) then
             (mkSt (upd (s_ent s) k (Some ent)) (s_polls s) (s_bc s)
                   (upd (s_conn s) k (Some (mkKs (e_ver ent) true))) true
-                  (upd (s_held s) k (Some (e_ver ent))),
+                  (upd (s_held s) k (Some (e_ver ent))) (add_tkey k (s_keys s)),
              [PFull k (e_ver ent)])
           else
             (* no cached payload: a warm key is flagged so that the next poll re-broadcasts it *)
             let warm := negb is_new && (Nat.eqb cv 0 || Nat.ltb cv (e_ver ent)) in
             let ent' := if warm then mkEnt (e_ver ent) (e_data ent) true else ent in
             (mkSt (upd (s_ent s) k (Some ent')) (s_polls s) (s_bc s)
-                  (upd (s_conn s) k (Some (mkKs cv false))) true (upd (s_held s) k held0),
+                  (upd (s_conn s) k (Some (mkKs cv false))) true (upd (s_held s) k held0) (add_tkey k (s_keys s)),
              [])
     | AUntrack k others =>
         match s_conn s k with
         | None => (s, [])
         | Some _ =>
             (mkSt (if others then s_ent s else upd (s_ent s) k None) (s_polls s) (s_bc s)
-                  (upd (s_conn s) k None) (s_sub s) (upd (s_held s) k None), [])
+                  (upd (s_conn s) k None) (s_sub s) (upd (s_held s) k None) (del_tkey k (s_keys s)), [])
         end
     | APollReq k =>
         match s_ent s k with
         | None => (s, [])
         | Some e =>
             (mkSt (s_ent s) (s_polls s ++ [(k, if e_nb e then 0 else e_ver e)]) (s_bc s)
-                  (s_conn s) (s_sub s) (s_held s), [])
+                  (s_conn s) (s_sub s) (s_held s) (s_keys s), [])
         end
     | APollResp i bv prev =>
         match nth_error (s_polls s) i with
@@ -164,19 +168,19 @@ Section Step.
         | Some (k, reqv) =>
             let polls' := remove_nth i (s_polls s) in
             match s_ent s k with
-            | None => (mkSt (s_ent s) polls' (s_bc s) (s_conn s) (s_sub s) (s_held s), [])
+            | None => (mkSt (s_ent s) polls' (s_bc s) (s_conn s) (s_sub s) (s_held s) (s_keys s), [])
             | Some e =>
                 if Nat.leb bv (e_ver e) then
                   (* unchanged; a flagged entry is re-broadcast in full when a matching pair exists *)
                   if e_nb e && Nat.ltb 0 (e_ver e) then
                     if keep then
                       (mkSt (upd (s_ent s) k (Some (mkEnt (e_ver e) (e_data e) false))) polls'
-                            (s_bc s ++ [mkBc k (e_ver e) None]) (s_conn s) (s_sub s) (s_held s), [])
+                            (s_bc s ++ [mkBc k (e_ver e) None]) (s_conn s) (s_sub s) (s_held s) (s_keys s), [])
                     else if Nat.eqb bv (e_ver e) then
                       (mkSt (upd (s_ent s) k (Some (mkEnt (e_ver e) (e_data e) false))) polls'
-                            (s_bc s ++ [mkBc k bv None]) (s_conn s) (s_sub s) (s_held s), [])
-                    else (mkSt (s_ent s) polls' (s_bc s) (s_conn s) (s_sub s) (s_held s), [])
-                  else (mkSt (s_ent s) polls' (s_bc s) (s_conn s) (s_sub s) (s_held s), [])
+                            (s_bc s ++ [mkBc k bv None]) (s_conn s) (s_sub s) (s_held s) (s_keys s), [])
+                    else (mkSt (s_ent s) polls' (s_bc s) (s_conn s) (s_sub s) (s_held s) (s_keys s), [])
+                  else (mkSt (s_ent s) polls' (s_bc s) (s_conn s) (s_sub s) (s_held s) (s_keys s), [])
                 else
                   let pv := e_ver e in
                   let d :=
@@ -186,16 +190,16 @@ Section Step.
                                else Some (mkPrep pv reqv))
                          else None in
                   (mkSt (upd (s_ent s) k (Some (mkEnt bv keep false))) polls'
-                        (s_bc s ++ [mkBc k bv d]) (s_conn s) (s_sub s) (s_held s), [])
+                        (s_bc s ++ [mkBc k bv d]) (s_conn s) (s_sub s) (s_held s) (s_keys s), [])
             end
         end
     | APollRemoved k =>
         (* the backend's answer to the pending request for k says "removed" *)
         match s_ent s k with
-        | None => (mkSt (s_ent s) (remove_poll k (s_polls s)) (s_bc s) (s_conn s) (s_sub s) (s_held s), [])
+        | None => (mkSt (s_ent s) (remove_poll k (s_polls s)) (s_bc s) (s_conn s) (s_sub s) (s_held s) (s_keys s), [])
         | Some _ =>
             (mkSt (upd (s_ent s) k None) (remove_poll k (s_polls s)) (s_bc s) (upd (s_conn s) k None) (s_sub s)
-                  (upd (s_held s) k None),
+                  (upd (s_held s) k None) (del_tkey k (s_keys s)),
              match s_conn s k with Some _ => [PRemoved k] | None => [] end)
         end
     | APublish k v =>
@@ -206,29 +210,34 @@ Section Step.
             else
               let d := if keep && e_data e then Some (mkPrep (e_ver e) (e_ver e)) else None in
               (mkSt (upd (s_ent s) k (Some (mkEnt v keep (e_nb e)))) (s_polls s)
-                    (s_bc s ++ [mkBc k v d]) (s_conn s) (s_sub s) (s_held s), [])
+                    (s_bc s ++ [mkBc k v d]) (s_conn s) (s_sub s) (s_held s) (s_keys s), [])
         end
     | ADeliver i dp1 =>
         match nth_error (s_bc s) i with
         | None => (s, [])
         | Some b =>
-            deliver (mkSt (s_ent s) (s_polls s) (remove_nth i (s_bc s)) (s_conn s) (s_sub s) (s_held s)) b dp1
+            deliver (mkSt (s_ent s) (s_polls s) (remove_nth i (s_bc s)) (s_conn s) (s_sub s) (s_held s) (s_keys s)) b dp1
         end
     | ALose i =>
-        (mkSt (s_ent s) (s_polls s) (remove_nth i (s_bc s)) (s_conn s) (s_sub s) (s_held s), [])
+        (mkSt (s_ent s) (s_polls s) (remove_nth i (s_bc s)) (s_conn s) (s_sub s) (s_held s) (s_keys s), [])
     | ARevoke k others =>
         match s_conn s k with
         | None => (s, [])
         | Some _ =>
             (mkSt (if others then s_ent s else upd (s_ent s) k None) (s_polls s) (s_bc s)
-                  (upd (s_conn s) k None) (s_sub s) (upd (s_held s) k None),
+                  (upd (s_conn s) k None) (s_sub s) (upd (s_held s) k None) (del_tkey k (s_keys s)),
              [PRemoved k])
         end
     | AEpochFlip =>
-        (* every entry is reset; current subscribers are unsubscribed with insufficient state *)
-        (mkSt (fun k => match s_ent s k with Some _ => Some (mkEnt 0 false false) | None => None end)
-              (s_polls s) (s_bc s) (fun _ => None) false (fun _ => None),
-         if s_sub s then [PUnsub] else [])
+        (* every entry is reset; the connections found in the keyed hub (those that track at least one
+           key) are unsubscribed with insufficient state *)
+        let ent' := fun k => match s_ent s k with Some _ => Some (mkEnt 0 false false) | None => None end in
+        match s_keys s with
+        | [] => (mkSt ent' (s_polls s) (s_bc s) (s_conn s) (s_sub s) (s_held s) [], [])
+        | _ :: _ =>
+            (* the unsubscribed connections untrack everything: entries without subscribers are dropped *)
+            (mkSt (fun _ => None) (s_polls s) (s_bc s) (fun _ => None) false (fun _ => None) [], [PUnsub])
+        end
     end.
 
   Fixpoint run (s : st) (l : list act) : st * list (list push) :=
@@ -240,5 +249,5 @@ Section Step.
         (s2, p :: ps)
     end.
 
-  Definition init : st := mkSt (fun _ => None) [] [] (fun _ => None) false (fun _ => None).
+  Definition init : st := mkSt (fun _ => None) [] [] (fun _ => None) false (fun _ => None) [].
 End Step.
